@@ -203,10 +203,10 @@ func (c *CaseC17) Eval(ob *Obs) []Finding {
 		}
 		ob.fired("sink_" + c.SinkKind)
 		ob.nontrivial(fmt.Sprintf("%s@%d%s%v", ch, k, c.SinkKind, c.Short))
-		if r.Stats.SinkFirstFailInWrite == r.Stats.SinkWrites {
-			ob.probe("sink_fault_in_last_write")
+		if r.Stats.SinkFirstFailInWrite >= base.Stats.SinkWrites {
+			ob.probe("sink_fault_in_final_write")
 		} else {
-			ob.probe("sink_fault_before_last_write")
+			ob.probe("sink_fault_in_earlier_write") // the writer's buffer filled before Flush: the error surfaces inside Process
 		}
 		if !r.Failed {
 			out = append(out, Finding{"C17 sink-failure-exit0 cmd=" + shape,
